@@ -328,6 +328,9 @@ struct DrainCtx {
 
 static int sink_cb(void *ctx, int which, int tag, const uint8_t *buf, size_t size) {
   DrainCtx *d = (DrainCtx *) ctx;
+  // the caller's sink is code like any other: the thread can lose the processor on its way in, between the library's read and
+  // the moment the sink looks at the buffer
+  if (d->r->tpos.size() > 1 && !d->t->child) K->preempt_point(d->t);
   bool sv = d->t->in_callback;
   d->t->in_callback = true;
   d->ncalls++;
